@@ -2,7 +2,7 @@ From Coq Require Import List Bool Ascii NArith ZArith.
 From TxVerif Require Import Lib.Bytes Lib.Verdict Spec.C20.
 Import ListNotations.
 
-Record case := { k_ops : list op; k_obs : list (list obs); k_flags : bool * bool }.
+Record case := { k_ops : list op; k_obs : list (list obs); k_flags : list bool }.
 
 Definition check (k : case) : verdict :=
   if negb (in_scope (k_ops k)) then VSkip else
